@@ -15,7 +15,7 @@
 (* every line Finish(rd) -- what the specification says the caller has if  *)
 (* the input ends here -- must explain the observation.                    *)
 (***************************************************************************)
-EXTENDS Deb822Reader, IOUtils, TLCExt
+EXTENDS Deb822Reader, Integers, IOUtils, TLCExt
 
 Traces == JsonDeserialize(IOEnv.TRACE_FILE)
 Diag   == IOEnv.TRACE_DIAG = "1"
@@ -28,12 +28,14 @@ TInit == /\ tid \in 1..Len(Traces)
          /\ rd = RInit(FALSE)
          /\ doc = <<>>
 
-Explains(r, o) == /\ Len(r) = o.np
-                  /\ IF r = <<>> THEN o.last = <<>> ELSE r[Len(r)] = o.last
+\* np = -2: this prefix was not observed (large documents are observed at some prefixes only)
+Explains(r, o) == \/ o.np = -2
+                  \/ /\ Len(r) = o.np
+                     /\ IF r = <<>> THEN o.last = <<>> ELSE r[Len(r)] = o.last
 
 TStep == /\ l <= Len(Tr.lines)
          /\ rd' = StepF(rd, Tr.lines[l])
-         /\ Explains(Finish(rd'), Tr.obs[l])
+         /\ (Tr.obs[l].np = -2 \/ Explains(Finish(rd'), Tr.obs[l]))
          /\ (l = Len(Tr.lines) => Finish(rd') = Tr.final)
          /\ l' = l + 1 /\ UNCHANGED <<tid, doc>>
          /\ (Diag => PrintT(<<"AT", tid, l>>))
